@@ -474,6 +474,34 @@ class Interp:
                         cont(('b', ret), st2)
                     return
             raise Top('range with non-constant bounds')
+        if name == 'rem_euclid' and path.startswith('core::num::') and len(args) == 2 and args[0][0] == 's' and args[1][0] == 's':
+            # x.rem_euclid(K), K a positive constant: the representative of x modulo K in 0..K (cannot panic for K > 0);
+            # it stays in x's class modulo M when M divides K
+            x, y = st.vals[args[0][1]], st.vals[args[1][1]]
+            if y.lo == y.hi and y.lo > 0:
+                K = y.lo
+                if 0 <= x.lo and x.hi < K:
+                    cont(('s', st.new(AV(x.lo, x.hi, x.ty, x.rel, x.base))), st)
+                else:
+                    self.obligations += 1
+                    cont(('s', st.new(AV(0, K - 1, x.ty, ('E', False) if (x.rel is not None and K % self.M == 0) else None, None))), st)
+                return
+            raise Top('rem_euclid by a non-constant or non-positive modulus')
+        if path == 'core::bool::<impl bool>::then_some' and len(args) == 2:
+            # c.then_some(v)  is  if c { Some(v) } else { None }: one state per outcome of an undecided comparison
+            some = ('agg', ('adt', 1, 'core::option::Option'), [args[1]])
+            none = ('agg', ('adt', 0, 'core::option::Option'), [])
+            c = args[0]
+            if c[0] == 'b':
+                cont(some if c[1] else none, st)
+                return
+            if c[0] == 'cmp':
+                for truth, ret in ((True, some), (False, none)):
+                    st2 = st.clone()
+                    if self.refine(st2, c[2], c[1], c[3], truth):
+                        cont(ret, st2)
+                return
+            raise Top('then_some on an unknown condition')
         if name in ('wrapping_add', 'wrapping_sub', 'wrapping_mul', 'wrapping_neg') and path.startswith('core::num::'):
             # same as the plain operator with overflow checks off
             op = {'wrapping_add': 'Add', 'wrapping_sub': 'Sub', 'wrapping_mul': 'Mul', 'wrapping_neg': 'Neg'}[name]
